@@ -59,6 +59,11 @@ def run(tier, v):
     hellos = sorted(set(hellos), key=lambda b: (len(b), b))
     if tier != "thorough":
         hellos = hellos[:: max(1, len(hellos) // 24)]
+    embed = []
+    vlib.tlc("MC_C04", pid=PID, workers=8, tag_sink=lambda tag, o: embed.append(bytes(o["bytes"])), env={"VERIF_FAM": "embed"}, timeout=1800, coverage=False)
+    if len(set(embed)) < 6:
+        raise vlib.ToolError("MC_C04 embed family incomplete")
+    hellos += sorted(set(embed))          # opaque fields that look like records: always all of them
     req = os.path.join(wd, "base.req")
     vlib.write_ndjson(req, [{"id": i, "op": "hello", "bytes": h.hex()} for i, h in enumerate(hellos)])
     bout = os.path.join(wd, "base.out")
